@@ -22,6 +22,8 @@ LEAVES.append(dict(name='fpVectorLen', file='rdm/combine.py', func='from_partial
 #                  (`&` -> and, `|` -> or) on 0/1 mask values
 #   triu_offset    the diagonal offset k of `np.triu_indices(self.n_cond, k)` in subset_pattern and of
 #                  `numpy.triu_indices(len(dvals), k)` in rdms_to_df (both must be the same literal)
+#   append_by_name (round 6) 1 iff `append_descriptor` reads the appended dict as `desc_new[k]` for the
+#                  receiver's key k (by name, never by position) -- see `_append_by_name`
 #   sel_cmp        the comparison that selects positions in subsample / subsample_pattern / bool_index
 #                  (`d == i`, `desc == i`, `descriptor == v`: all must be the same operator),
 #                  as a function of two integer codes
@@ -130,6 +132,54 @@ def _sel_cmp():
     return f'(1 if d {sym} v else 0)'
 
 
+def _append_by_name():
+    """round 6: `append_descriptor(descriptor, desc_new)` must read the appended dictionary BY NAME:
+    the one loop over `descriptor.items()` assigns `descriptor[k] = list(v) + list(desc_new[k])`, the
+    appended dictionary is otherwise only asked for its keys, and the receiver is otherwise only
+    written at the literal key 'index'.  Anything else (zip of the two dictionaries, positional
+    pairing, .update of a rebuilt dict ...) is underivable = a broken obligation (fail closed)."""
+    fn = _func('util/descriptor_utils.py', 'append_descriptor')
+    args = [a.arg for a in fn.args.args]
+    if len(args) != 2:
+        raise _Underivable(f'append_descriptor takes {args}')
+    recv, new = args
+    parent = {}
+    for node in _ast.walk(fn):
+        for ch in _ast.iter_child_nodes(node):
+            parent[ch] = node
+    loops = [n for n in _ast.walk(fn) if isinstance(n, _ast.For) and _ast.unparse(n.iter) == f'{recv}.items()']
+    if len(loops) != 1:
+        raise _Underivable(f'expected one loop over {recv}.items(), found {len(loops)}')
+    lp = loops[0]
+    if not (isinstance(lp.target, _ast.Tuple) and len(lp.target.elts) == 2
+            and all(isinstance(e, _ast.Name) for e in lp.target.elts)):
+        raise _Underivable(f'loop target `{_ast.unparse(lp.target)}`')
+    k, v = (e.id for e in lp.target.elts)
+    if len(lp.body) != 1 or not isinstance(lp.body[0], _ast.Assign) or lp.orelse:
+        raise _Underivable('the loop body is not one assignment')
+    st = lp.body[0]
+    if len(st.targets) != 1 or _ast.unparse(st.targets[0]) != f'{recv}[{k}]' \
+            or _ast.unparse(st.value) != f'list({v}) + list({new}[{k}])':
+        raise _Underivable(f'the loop assigns `{_ast.unparse(st)}`, not '
+                           f'`{recv}[{k}] = list({v}) + list({new}[{k}])`')
+    for node in _ast.walk(fn):
+        if isinstance(node, _ast.Name) and node.id == new:
+            par = parent.get(node)
+            by_name = isinstance(par, _ast.Subscript) and par.value is node and parent.get(par) is not None \
+                and any(par is x for x in _ast.walk(st))
+            keys_only = isinstance(par, _ast.Attribute) and par.attr == 'keys'
+            if not (by_name or keys_only):
+                raise _Underivable(f'{new} is also used as `{_ast.unparse(par)}` (line {node.lineno})')
+        if isinstance(node, _ast.Name) and node.id == recv and isinstance(node.ctx, _ast.Load):
+            par = parent.get(node)
+            if isinstance(par, _ast.Attribute) and par.attr not in ('keys', 'items'):
+                raise _Underivable(f'{recv}.{par.attr} is used (line {node.lineno})')
+            if isinstance(par, _ast.Subscript) and par.value is node and isinstance(par.ctx, (_ast.Store, _ast.Del)) \
+                    and par is not st.targets[0] and _ast.unparse(par.slice) != "'index'":
+                raise _Underivable(f'`{_ast.unparse(par)}` is written outside the loop (line {node.lineno})')
+    return '1'
+
+
 def _derive():
     out = ['# DERIVED by harness/leaves/C10.py from the source tree under check - do not edit', '']
 
@@ -145,6 +195,7 @@ def _derive():
     emit('pair_selected', ['a', 'b'], _pair_selected)
     emit('triu_offset', [], _triu_offset)
     emit('sel_cmp', ['d', 'v'], _sel_cmp)
+    emit('append_by_name', [], _append_by_name)
     text = '\n'.join(out)
     if not (_os.path.exists(DERIVED) and open(DERIVED).read() == text):
         with open(DERIVED + '.tmp', 'w') as f:
@@ -160,4 +211,6 @@ LEAVES += [
          params={'a': 'Nat', 'b': 'Nat'}, ret='Nat'),
     dict(name='triuOffset', file=DERIVED, func='triu_offset', kind='func', params={}, ret='Nat'),
     dict(name='selCmp', file=DERIVED, func='sel_cmp', kind='func', params={'d': 'Int', 'v': 'Int'}, ret='Nat'),
+    # round 6: 1 = `append_descriptor` looks the appended dictionary up by the receiver's key NAME
+    dict(name='appendByName', file=DERIVED, func='append_by_name', kind='func', params={}, ret='Nat'),
 ]
